@@ -6,17 +6,28 @@ Also validates the binary64 model itself against the hardware (f64mul/div/add/ri
 Oracle (independent of the Lean model): fractions.Fraction arithmetic on picoseconds.
 """
 import operator
+import copy as _copy
+import pickle
 from fractions import Fraction as Fr
 import numpy as np
 from common import Case, Failure, f2x, x2f, call, err_kind
 
 PID = 'C01'
 LEAN_TARGETS = ['Nitime.Props.C01']
-RULE = ('ops generated from one PRNG state: constructor / re-wrap / list-of-time-objects / 9 operators x 8 operand kinds x 81 unit pairs / '
-        '4 reductions / convert_unit, values from {0, ±1, small, ties k+0.5, decimals 0.1k, near 2^53, near 2^62/factor}; '
-        'distinct = distinct protocol line; non-trivial = payload not all zero')
+RULE = ('ops generated from one PRNG state: constructor / re-wrap / list-of-time-objects / 9 operators x 38 operand kinds (python, lists, every '
+        'integer width signed/unsigned, float16/32/64, big-endian, read-only, strided, 0-d, numpy scalars, ints beyond 2^53) x 81 unit pairs / '
+        '4 reductions / convert_unit, values from {0, ±1, small, ties k+0.5, decimals 0.1k, near 2^53, near 2^62/factor}; the same number through '
+        'many doors (int / float / numpy scalar, two units, constructor and operators) in one process; 700 object HISTORIES: a source from any '
+        'public entry point (TimeArray with every container, copy=False, UniformTime and its attributes / elements / slices, Epochs, Events, '
+        'TimeSeries) -> 1-6 steps of re-wrapping (copy True/False/absent, unit given/None/absent), convert_unit, views of views, copies, '
+        'pickling, reductions, arithmetic -> one of the 9 operators; after every step label, payload and the factor shown by (o+1)-o are '
+        'observed; distinct = distinct protocol line; non-trivial = payload not all zero')
 ASSUMPTIONS = ['numpy int64/float64 arithmetic follows IEEE-754 binary64 / two\'s complement (the F64 model is checked bit-for-bit against it in this run)',
-               'magnitudes stay below 2^62 ps (the property\'s domain); overflow beyond it is not modelled']
+               'magnitudes stay below 2^62 ps (the property\'s domain); overflow beyond it is not modelled',
+               'narrow dtypes are exact embeddings: a float32/float16/intN value crosses the protocol as the number it denotes']
+TRUSTED_EXTRA = ['harness/translate_c01.py: abstract interpretation of TimeArray.__new__ / __array_finalize__ / convert_unit / UniformTime.__new__ / '
+                 'reductions into Generated/C01Ctor.lean (label / factor source per return path); `unset` is read as "what __array_finalize__ left"',
+                 'which history step of the harness maps to which model step (view kinds -> `view`, pickle / view of a bare array -> `strip`)']
 
 UNITS = ['ps', 'ns', 'us', 'ms', 's', 'm', 'h', 'D', 'W']
 FACTOR = {'ps': 1, 'ns': 10**3, 'us': 10**6, 'ms': 10**9, 's': 10**12, 'm': 60 * 10**12,
@@ -156,6 +167,9 @@ def gen_T(rng, big=True, n=None):
     return unit, scalar, gen_ps(rng, n, big)
 
 
+CTOR_KINDS = None   # set below KINDS: every bare-number kind
+
+
 OPS_AR = {'add': operator.add, 'sub': operator.sub,
           'radd': lambda t, v: operator.add(v, t), 'rsub': lambda t, v: operator.sub(v, t)}
 OPS_CMP = {'lt': operator.lt, 'le': operator.le, 'gt': operator.gt, 'ge': operator.ge, 'eq': operator.eq}
@@ -166,11 +180,63 @@ KINDS = ['time', 'pyint', 'pyfloat', 'list', 'int32', 'int64', 'float64', 'mixed
 NP_SCALAR = {'npint32': np.int32, 'npint64': np.int64, 'npfloat64': np.float64, 'arr0d': (lambda v: np.array(v, dtype=np.int64))}
 
 
+# --- session 3 (L1): the dtype / layout families of bare operands.  Every value crosses the protocol as the exact number it
+# denotes (an integer, or the binary64 value a narrower float widens to), so the model and the oracle read a float32 0.1 as
+# the double 0.100000001490116…: conversion to float64 is an exact embedding, the product with the factor is binary64.
+ARR_KINDS = {   # kind -> (int / float, numpy dtype, layout)
+    'int8': ('i', 'i1', 'C'), 'int16': ('i', 'i2', 'C'), 'uint8': ('i', 'u1', 'C'), 'uint16': ('i', 'u2', 'C'),
+    'uint32': ('i', 'u4', 'C'), 'uint64': ('i', 'u8', 'C'), 'beint32': ('i', '>i4', 'C'), 'beint64': ('i', '>i8', 'C'),
+    'roint64': ('i', 'i8', 'ro'), 'stridedint64': ('i', 'i8', 'strided'),
+    'float32': ('f', 'f4', 'C'), 'float16': ('f', 'f2', 'C'), 'befloat64': ('f', '>f8', 'C'),
+    'stridedfloat64': ('f', 'f8', 'strided'), 'rofloat64': ('f', 'f8', 'ro'), 'float64whole': ('w', 'f8', 'C')}
+NPS_KINDS = {'npint8': 'i1', 'npint16': 'i2', 'npuint8': 'u1', 'npuint16': 'u2', 'npuint32': 'u4', 'npuint64': 'u8',
+             'npfloat32': 'f4', 'npfloat16': 'f2'}
+for _k, _dt in NPS_KINDS.items():
+    NP_SCALAR[_k] = (lambda v, _dt=_dt: np.dtype(_dt).type(v))
+NP_SCALAR['arr0df'] = lambda v: np.array(v, dtype=np.float64)
+NP_SCALAR['arr0d32'] = lambda v: np.array(v, dtype=np.int32)
+KINDS += list(ARR_KINDS) + list(NPS_KINDS) + ['arr0df', 'arr0d32', 'bigint']
+FLOAT_KINDS = {'mixedlist', 'float64', 'npfloat64', 'arr0df', 'npfloat32', 'npfloat16'} | \
+    {k for k, v in ARR_KINDS.items() if v[0] in 'fw'}
+INT_KINDS = set(KINDS) - FLOAT_KINDS - {'time', 'pyfloat'}
+KIND_DTYPE = dict({k: v[1] for k, v in ARR_KINDS.items()}, int32='i4', int64='i8', float64='f8', npint32='i4', npint64='i8',
+                  npfloat64='f8', arr0d='i8', arr0df='f8', arr0d32='i4', **NPS_KINDS)
+
+
+CTOR_KINDS = [k for k in KINDS if k != 'time']
+
+
+def fit_dtype(v, dt):
+    """the value of `v` that an array / scalar of dtype `dt` can hold: integers clipped to the range, floats rounded to the width"""
+    d = np.dtype(dt)
+    if d.kind in 'iu':
+        ii = np.iinfo(d)
+        return max(int(ii.min), min(int(ii.max), int(v)))
+    if d.itemsize < 8:
+        fi = np.finfo(d)
+        return float(d.type(max(-float(fi.max) / 2, min(float(fi.max) / 2, v))))
+    return float(v)
+
+
+def build_arr(vs, kind):
+    """the real ndarray of an array kind (dtype, byte order, read-only, strided)"""
+    if kind in ('int32', 'int64', 'float64'):
+        return np.array(vs, dtype=KIND_DTYPE[kind])
+    _, dt, layout = ARR_KINDS[kind]
+    a = np.array(vs, dtype=np.dtype(dt))
+    if layout == 'strided':
+        b = np.zeros(2 * len(vs) + 1, dtype=np.dtype(dt))
+        b[::2][:len(vs)] = a
+        a = b[::2][:len(vs)]
+    if layout == 'ro':
+        a.setflags(write=False)
+    return a
+
+
 def np_scalar_val(rng, kind, self_unit):
-    if kind == 'npfloat64':
-        return gen_float(rng, self_unit)
-    v = gen_int(rng, self_unit)
-    return max(-2**31, min(2**31 - 1, v)) if kind == 'npint32' else v
+    if kind in FLOAT_KINDS:
+        return fit_dtype(gen_float(rng, self_unit), KIND_DTYPE[kind])
+    return fit_dtype(gen_int(rng, self_unit), KIND_DTYPE[kind])
 
 
 def gen_operand(rng, kind, self_unit, n_self):
@@ -190,7 +256,21 @@ def gen_operand(rng, kind, self_unit, n_self):
     if kind in NP_SCALAR:
         v = np_scalar_val(rng, kind, self_unit)
         return 'N:1:' + tok_num(v), (lambda: NP_SCALAR[kind](v)), {'kind': kind, 'scalar': True, 'vals': [v]}
+    if kind == 'bigint':   # python ints that no double holds
+        f = FACTOR[self_unit]
+        top = (LIM - 1) // f // 4
+        v = rng.choice([-1, 1]) * (rng.randint(2**53 + 1, top) | 1) if top > 2**53 + 1 else gen_int(rng, self_unit)
+        return 'N:1:' + tok_num(v), (lambda: v), {'kind': kind, 'scalar': True, 'vals': [v]}
     n = rng.choice([1, n_self, n_self])
+    if kind in ARR_KINDS:
+        cat, dt, _ = ARR_KINDS[kind]
+        if cat == 'i':
+            vs = [fit_dtype(gen_int(rng, self_unit), dt) for _ in range(n)]
+        elif cat == 'w':
+            vs = [float(max(-2**53, min(2**53, gen_int(rng, self_unit)))) for _ in range(n)]
+        else:
+            vs = [fit_dtype(gen_float(rng, self_unit), dt) for _ in range(n)]
+        return 'N:0:' + ','.join(tok_num(v) for v in vs), (lambda: build_arr(vs, kind)), {'kind': kind, 'scalar': False, 'vals': vs}
     if kind in ('list', 'int64'):
         vs = [gen_int(rng, self_unit) for _ in range(n)]
         b = (lambda: list(vs)) if kind == 'list' else (lambda: np.array(vs, dtype=np.int64))
@@ -234,7 +314,7 @@ def cases(rng, tier, seed):
     for _ in range(600 * n):
         unit = rng.choice(UNITS + ['none'])
         ru = 's' if unit == 'none' else unit
-        kind = rng.choice(['pyint', 'pyfloat', 'list', 'int32', 'int64', 'float64', 'mixedlist'])
+        kind = rng.choice(CTOR_KINDS)
         tok, build, meta = gen_operand(rng, kind, ru, rng.randint(1, 4))
         _, sc, xs = tok.split(':')
         meta.update(op='ctor', unit=unit)
@@ -267,6 +347,8 @@ def cases(rng, tier, seed):
             for kind in KINDS:
                 if kind == 'time' and opn in ('radd', 'rsub'):
                     continue
+                if kind in ('npfloat32', 'npfloat16', 'npuint64') and opn in ('radd', 'rsub'):
+                    continue   # numpy scalar on the LEFT: the recorded finding, represented by npfloat64 / the integer widths
                 ua, ub = pairs[pi % 81]
                 pi += 1
                 sc = rng.random() < 0.3
@@ -289,15 +371,17 @@ def cases(rng, tier, seed):
                     # bare numbers that denote (almost) the same instants as `self`: a comparison must
                     # then behave exactly like the constructor's rounding, also beyond 2^53 ps
                     f = FACTOR[ua]
-                    if kind in ('pyint', 'list', 'int32', 'int64', 'npint32', 'npint64', 'arr0d'):
+                    if kind in INT_KINDS:
                         vs = [p_ // f + rng.choice([0, 0, 1, -1]) for p_ in ps]
-                        if kind in ('int32', 'npint32'):
-                            vs = [max(-2**31, min(2**31 - 1, v)) for v in vs]
+                        if kind in KIND_DTYPE:
+                            vs = [fit_dtype(v, KIND_DTYPE[kind]) for v in vs]
                     else:
                         vs = [float(Fr(p_) / f) + rng.choice([0, 0.4, -0.4, 0.6, -0.6, 1, 0.5, 1e-3]) / f for p_ in ps]
                         if kind == 'mixedlist' and len(vs) > 1:
                             vs[0] = int(ps[0] // f)
-                    if kind in ('pyint', 'pyfloat') or kind in NP_SCALAR:
+                        if kind in KIND_DTYPE:
+                            vs = [fit_dtype(v, KIND_DTYPE[kind]) for v in vs]
+                    if kind in ('pyint', 'pyfloat', 'bigint') or kind in NP_SCALAR:
                         vs = vs[:1]
                         meta.update(scalar=True, vals=vs)
                         tok = 'N:1:' + tok_num(vs[0])
@@ -305,8 +389,7 @@ def cases(rng, tier, seed):
                     else:
                         meta.update(scalar=False, vals=vs)
                         tok = 'N:0:' + ','.join(tok_num(v) for v in vs)
-                        dt = {'int32': np.int32, 'int64': np.int64, 'float64': np.float64}.get(kind)
-                        build = (lambda v=vs, dt=dt: list(v) if dt is None else np.array(v, dtype=dt))
+                        build = (lambda v=vs, k=kind: list(v) if k in ('list', 'mixedlist') else build_arr(v, k))
                 meta.update(op=opn, self=(ua, sc, ps), uniform=uniform)
                 fn = OPS_AR.get(opn) or OPS_CMP[opn]
                 canon = canon_T if opn in OPS_AR else canon_B
@@ -342,6 +425,43 @@ def cases(rng, tier, seed):
                     impl = call(lambda: 'ok ' + canon(fn(mk_T(ua, False, ps), v)))
                     out.append(Case('C01 binop %s %s N:1:%s' % (opn, tok_T(ua, False, ps), tok_num(v)), impl,
                                     'binop/%s/%s' % (opn, meta['kind']), meta=meta))
+    # --- the SAME number through many doors (L2): as python int / float / numpy scalars, against objects of several units, in
+    # the constructor and in the operators, near 2^53 and near the top of the domain — a value seen earlier (in another
+    # type, with another factor) must not influence a later conversion
+    for rep in range(30 * n):
+        ua, ub = rng.sample(UNITS, 2)
+        top = (LIM - 1) // max(FACTOR[ua], FACTOR[ub]) // 4
+        cands = [top - rng.randint(0, 3), rng.randint(1, max(1, top))]
+        if 2**53 // min(FACTOR[ua], FACTOR[ub]) + 3 < top:
+            cands += [min(top, (2**53 // min(FACTOR[ua], FACTOR[ub]) + rng.randint(1, 1000)) | 1)] * 2
+        k = rng.choice(cands) * rng.choice([1, 1, -1])
+        if float(k) != k:
+            k = int(float(k))
+        doors = [(u_, conv) for u_ in (ua, ub, ua) for conv in ('pyfloat', 'pyint', 'npfloat64', 'npint64')]
+        rng.shuffle(doors)
+        seen = []
+        for u_, kd_ in doors[:8]:
+            v = {'pyfloat': float, 'pyint': int, 'npfloat64': float, 'npint64': int}[kd_](k)
+            mkv = (lambda v=v, kd_=kd_: NP_SCALAR[kd_](v) if kd_ in NP_SCALAR else v)
+            opn = rng.choice(['ctor', 'add', 'sub', 'eq', 'le', 'rsub'])
+            if opn == 'rsub' and kd_ in NP_SCALAR:
+                opn = 'sub'
+            prelude = list(seen)
+            seen.append([u_, kd_, v, opn])
+            if opn == 'ctor':
+                meta = {'kind': kd_, 'scalar': True, 'vals': [v], 'op': 'ctor', 'unit': u_, 'prelude': prelude}
+                impl = call(lambda: 'ok ' + canon_T(T(mkv(), time_unit=u_)))
+                out.append(Case('C01 ctor %s 1 %s' % (u_, tok_num(v)), impl, 'ctor/' + kd_, meta=meta))
+                continue
+            ps = [rng.randint(-10**6, 10**6), k * FACTOR[u_]]
+            meta = {'kind': kd_, 'scalar': True, 'vals': [v], 'op': opn, 'self': (u_, False, ps), 'prelude': prelude}
+            fn = OPS_AR.get(opn) or OPS_CMP[opn]
+            canon = canon_T if opn in OPS_AR else canon_B
+            impl = call(lambda: 'ok ' + canon(fn(mk_T(u_, False, ps), mkv())))
+            out.append(Case('C01 binop %s %s N:1:%s' % (opn, tok_T(u_, False, ps), tok_num(v)), impl,
+                            'binop/%s/%s' % (opn, kd_), meta=meta))
+    # --- object histories (copy=False / views / copies / pickling / reductions, sources from every class)
+    out += hist_cases(rng, 700 * n)
     # --- reductions and convert_unit
     for it in range(150 * n):
         u, sc, ps = gen_T(rng, big=False)
@@ -359,6 +479,471 @@ def cases(rng, tier, seed):
             return 'ok ' + canon_T(t)
         out.append(Case('C01 convert %s %s' % (tok_T(u, sc, ps), nu), call(conv), 'convert',
                         meta={'op': 'convert', 'self': (u, sc, ps), 'unit': nu}))
+    return out
+
+
+
+# ------------------------------------------------------------------ session 3: object HISTORIES (L2 / L3 / L5 / L6)
+# A time object carries a unit LABEL (`time_unit`) and, separately, the FACTOR bare numbers are read with
+# (`_conversion_factor`).  A history starts from a time object obtained through ANY public entry point (the constructor with
+# every container / dtype, copy=False, UniformTime and its attributes / elements / slices, Epochs, Events, TimeSeries), runs
+# re-wrapping (copy True / False, unit given / None), convert_unit, views of views, copies, pickling, reductions and
+# arithmetic, and after EVERY step observes: label, payload and the factor as the public behaviour shows it
+# (`(o + 1) - o`).  The last object is then combined with a bare number / array / time object by one of the nine operators.
+HIST_LIM = 2**57
+
+
+def hist_ps(rng, n, unit):
+    f = FACTOR[unit]
+    return [rng.choice([rng.randint(-50, 50) * f if abs(50 * f) < HIST_LIM else rng.randint(-1, 1) * f,
+                        rng.randint(-10**15, 10**15), rng.choice([-1, 1]) * (2**53 + rng.randint(-2, 2))]) for _ in range(n)]
+
+
+def small_ks(rng, n, unit, lo=None):
+    top = max(1, min(10**6, (HIST_LIM // 8) // FACTOR[unit]))
+    return [rng.randint(-top if lo is None else lo, top) for _ in range(n)]
+
+
+def int_container(ks, how):
+    """integers in one of the container / dtype families (L1)"""
+    if how == 'list':
+        return list(ks)
+    if how == 'tuple':
+        return tuple(ks)
+    if how == 'float64whole':
+        return np.array([float(k) for k in ks])
+    return build_arr(ks, how)
+
+
+def pick_int_container(rng, ks):
+    ok = ['list', 'tuple', 'int64', 'float64whole', 'beint64', 'roint64', 'stridedint64']
+    for k, dt in (('int8', 'i1'), ('int16', 'i2'), ('int32', 'i4'), ('uint8', 'u1'), ('uint16', 'u2'), ('uint32', 'u4'),
+                  ('uint64', 'u8'), ('beint32', '>i4')):
+        ii = np.iinfo(np.dtype(dt))
+        if all(int(ii.min) <= v <= int(ii.max) for v in ks):
+            ok.append(k)
+    return rng.choice(ok)
+
+
+def num_variant(v, how):
+    """one integer as python int / numpy scalars / 0-d array / whole float (L3: constructor parameters)"""
+    return {'int': int, 'npint64': np.int64, 'npint32': np.int32, 'arr0d': (lambda x: np.array(x, dtype=np.int64)),
+            'float': float, 'npfloat64': np.float64}[how](v)
+
+
+def pick_num_variant(rng, v):
+    ok = ['int', 'npint64', 'arr0d', 'float', 'npfloat64']
+    if abs(v) < 2**31:
+        ok.append('npint32')
+    return rng.choice(ok)
+
+
+def build_source(sp):
+    """the real object a source specification denotes"""
+    t = ts()
+    T, U = t.TimeArray, t.UniformTime
+    k, u = sp['k'], sp.get('unit')
+    if k == 'convert':
+        return mk_T(u, sp['sc'], sp['ps'])
+    if k == 'nocopy':
+        data = np.int64(sp['ps'][0]) if sp['sc'] else np.array(sp['ps'], dtype=np.int64)
+        return T(data, time_unit=u, copy=False)
+    if k == 'ints':
+        data = num_variant(sp['ks'][0], sp['how']) if sp['sc'] else int_container(sp['ks'], sp['how'])
+        return T(data, time_unit=u) if sp.get('copyarg') is None else T(data, time_unit=u, copy=True)
+    if k in ('uaxis', 'uattr', 'uitem', 'uslice'):
+        kw = dict(t0=num_variant(sp['k0'], sp['h0']), sampling_interval=num_variant(sp['kd'], sp['hd']),
+                  time_unit=u)
+        if sp.get('t0obj'):   # the start as a time object in ANOTHER unit (a zero one included)
+            kw['t0'] = mk_T(sp['t0obj'], True, [sp['k0'] * FACTOR[u]])
+        if sp.get('by') == 'duration':
+            kw['duration'] = num_variant(sp['n'] * sp['kd'], sp['hn'])
+        else:
+            kw['length'] = num_variant(sp['n'], sp['hn']) if sp['hn'] in ('int', 'npint64', 'npint32') else sp['n']
+        ax = U(**kw)
+        if k == 'uaxis':
+            return ax
+        if k == 'uattr':
+            return getattr(ax, sp['attr'])
+        if k == 'uitem':
+            return ax[sp['i']]
+        return ax[sp['a']:sp['b']:sp['c']]
+    if k == 'epochs':
+        E = t.Epochs
+        kw = {}
+        if sp.get('extra'):
+            kw['static'] = None   # falsy/None value of an optional parameter given explicitly
+            kw['note'] = 'free-form keyword (Epochs takes **kwargs)'
+        if sp['form'] == 'start-stop':
+            e = E(start=int_container(sp['ks'], sp['how']), stop=int_container(sp['ke'], sp['how']), time_unit=u, **kw)
+        elif sp['form'] == 'start-duration':
+            e = E(start=int_container(sp['ks'], sp['how']), duration=int_container(sp['kdur'], sp['how']), time_unit=u, **kw)
+        elif sp['form'] == 'scalar':
+            e = E(t0=sp['ks'][0], stop=sp['ke'][0], offset=sp['off'], time_unit=u, **kw)
+        else:
+            e = E(t0=int_container(sp['ks'], sp['how']), duration=int_container(sp['kdur'], sp['how']), offset=sp['off'],
+                  time_unit=u, **kw)
+        if sp.get('index') is not None:
+            e = e[sp['index']]
+        return getattr(e, sp['attr'])
+    if k == 'events':
+        kw = {}
+        if sp['with'] == 'labels':
+            kw = dict(labels=['a', 'b'], indices=[list(range(len(sp['ks']))), list(range(len(sp['ks'])))])
+        elif sp['with'] == 'data':
+            kw = dict(i=np.arange(len(sp['ks'])), j=[2.5] * len(sp['ks']))
+        elif sp['with'] == 'none':
+            kw = dict(labels=None, indices=None)
+        ev = t.Events(int_container(sp['ks'], sp['how']), time_unit=u, **kw)
+        if sp.get('index') is not None:
+            ev = ev[sp['index']]
+        return ev.time
+    if k == 'series':
+        data = np.zeros(sp['n'])
+        if sp['how'] == 'interval':
+            se = t.TimeSeries(data, sampling_interval=num_variant(sp['kd'], sp['hd']), t0=num_variant(sp['k0'], sp['h0']), time_unit=u)
+        else:   # from an axis in unit `au`, with or without an explicit start / unit
+            ax = U(t0=sp['k0'], sampling_interval=sp['kd'], length=sp['n'], time_unit=sp['au'])
+            kw = {}
+            if sp['unit_arg'] != 'default':
+                kw['time_unit'] = None if sp['unit_arg'] == 'none' else sp['unit_arg']
+            if sp.get('t0_arg') is not None:
+                kw['t0'] = num_variant(sp['t0_arg'], sp['h0'])
+            se = t.TimeSeries(data, time=ax, **kw)
+        return getattr(se, sp['attr'])
+    raise ValueError(k)
+
+
+def gen_source(rng):
+    """(spec, cls 'T'|'U', unit, scalar, ps): what the source must be, from the arguments alone"""
+    u = rng.choice(UNITS)
+    f = FACTOR[u]
+    k = rng.choice(['convert', 'nocopy', 'ints', 'ints', 'uaxis', 'uattr', 'uitem', 'uslice', 'epochs', 'epochs', 'events', 'series', 'series'])
+    if k in ('convert', 'nocopy'):
+        sc = rng.random() < 0.3
+        ps = hist_ps(rng, 1 if sc else rng.randint(1, 4), u)
+        return {'k': k, 'unit': u, 'sc': sc, 'ps': ps}, 'T', u, sc, ps
+    if k == 'ints':
+        sc = rng.random() < 0.3
+        ks = small_ks(rng, 1 if sc else rng.randint(1, 4), u)
+        how = pick_num_variant(rng, ks[0]) if sc else pick_int_container(rng, ks)
+        if how == 'uint64' or (how.startswith('uint') and min(ks) < 0):
+            how = 'list'
+        return {'k': k, 'unit': u, 'sc': sc, 'ks': ks, 'how': how, 'copyarg': rng.choice([None, True])}, 'T', u, sc, [v * f for v in ks]
+    if k in ('uaxis', 'uattr', 'uitem', 'uslice'):
+        k0 = rng.choice([0, 0, 0] + small_ks(rng, 2, u))
+        kd = small_ks(rng, 1, u, lo=1)[0]
+        n = rng.randint(2, 4)
+        if abs(k0 + n * kd) * f >= HIST_LIM:
+            k0, kd = 0, 1
+        sp = {'k': k, 'unit': u, 'k0': k0, 'kd': kd, 'n': n, 'h0': pick_num_variant(rng, k0), 'hd': pick_num_variant(rng, kd),
+              'hn': rng.choice(['int', 'npint64', 'npint32']), 'by': 'length'}
+        if rng.random() < 0.3:
+            sp['t0obj'] = rng.choice(UNITS)
+        if rng.random() < 0.25:
+            sp['by'], sp['hn'] = 'duration', pick_num_variant(rng, n * kd)
+        ramp = [(k0 + i * kd) * f for i in range(n)]
+        if k == 'uaxis':
+            return sp, 'U', u, False, ramp
+        if k == 'uattr':
+            sp['attr'] = rng.choice(['t0', 'sampling_interval', 'duration'])
+            return sp, 'T', u, True, [{'t0': k0 * f, 'sampling_interval': kd * f, 'duration': n * kd * f}[sp['attr']]]
+        if k == 'uitem':
+            sp['i'] = rng.randrange(n)
+            return sp, 'T', u, True, [ramp[sp['i']]]
+        a = rng.randint(0, n - 1)
+        b = rng.randint(a + 1, n)
+        c = rng.choice([1, 1, 2])
+        sp.update(a=a, b=b, c=c)
+        return sp, 'U', u, False, ramp[a:b:c]
+    if k == 'epochs':
+        form = rng.choice(['start-stop', 'start-duration', 't0-duration', 'scalar'])
+        n = 1 if form == 'scalar' else rng.randint(1, 3)
+        ks = small_ks(rng, n, u)
+        kdur = small_ks(rng, n, u, lo=1)
+        ke = [a + d for a, d in zip(ks, kdur)]
+        off = 0 if form in ('start-stop', 'start-duration') else rng.choice([0, 0, 0.0] + small_ks(rng, 1, u))
+        uu = rng.choice([u, u, u, None])
+        ru = 's' if uu is None else uu
+        if uu is None and max(abs(v) for v in ks + ke + [off, 1]) * FACTOR['s'] * 2 >= HIST_LIM:
+            uu, ru = u, u
+        rf = FACTOR[ru]
+        how = pick_int_container(rng, ks + ke + kdur)
+        if how.startswith('uint') and min(ks + ke) < 0:
+            how = 'int64'
+        sp = {'k': k, 'unit': uu, 'form': form, 'ks': ks, 'ke': ke, 'kdur': kdur, 'off': off, 'how': how,
+              'attr': rng.choice(['start', 'stop', 'duration', 'offset']), 'index': None, 'extra': rng.random() < 0.3}
+        start = [int(v - off) * rf for v in ks] if form in ('t0-duration', 'scalar') else [v * rf for v in ks]
+        if form == 'scalar':
+            stop = [ke[0] * rf]
+        else:
+            stop = [s_ + d * rf for s_, d in zip(start, kdur)] if form != 'start-stop' else [v * rf for v in ke]
+        sc = form == 'scalar'
+        if not sc and rng.random() < 0.4 and sp['attr'] != 'duration':
+            sp['index'] = rng.randrange(n)
+            start, stop, sc = [start[sp['index']]], [stop[sp['index']]], True
+        val = {'start': start, 'stop': stop, 'duration': [b_ - a_ for a_, b_ in zip(start, stop)], 'offset': [int(off) * rf]}[sp['attr']]
+        return sp, 'T', ru, (True if sp['attr'] == 'offset' else sc), val
+    if k == 'events':
+        n = rng.randint(1, 4)
+        ks = small_ks(rng, n, u)
+        sp = {'k': k, 'unit': u, 'ks': ks, 'how': pick_int_container(rng, ks), 'with': rng.choice(['plain', 'labels', 'data', 'none']), 'index': None}
+        if sp['how'].startswith('uint') and min(ks) < 0:
+            sp['how'] = 'list'
+        ps = [v * f for v in ks]
+        if sp['with'] in ('plain', 'data') and rng.random() < 0.3:
+            sp['index'] = rng.randrange(n)
+            ps = [ps[sp['index']]]
+        return sp, 'T', u, False, ps
+    # series
+    k0 = rng.choice([0, 0, 0] + small_ks(rng, 2, u))
+    kd = small_ks(rng, 1, u, lo=1)[0]
+    n = rng.randint(2, 4)
+    if abs(k0 + n * kd) * f >= HIST_LIM:
+        k0, kd = 0, 1
+    attr = rng.choice(['t0', 'sampling_interval', 'duration', 'time'])
+    sp = {'k': 'series', 'unit': u, 'k0': k0, 'kd': kd, 'n': n, 'attr': attr, 'h0': pick_num_variant(rng, k0), 'hd': pick_num_variant(rng, kd),
+          'how': rng.choice(['interval', 'axis'])}
+    lab, t0 = u, k0 * f
+    if sp['how'] == 'axis':
+        sp['au'] = u
+        sp['unit_arg'] = rng.choice(['default', 'none', rng.choice(UNITS)])
+        lab = {'default': 's', 'none': u}.get(sp['unit_arg'], sp['unit_arg'])
+        sp['unit'] = lab
+        if rng.random() < 0.5:   # an explicit start, 0 / 0.0 included, read in the SERIES' unit
+            t0k = rng.choice([0, 0, 1, -1])
+            if abs(t0k * FACTOR[lab]) + n * kd * f < HIST_LIM:
+                sp['t0_arg'], sp['h0'] = t0k, rng.choice(['int', 'float', 'npint64'])
+                t0 = t0k * FACTOR[lab]
+    val = {'t0': [t0], 'sampling_interval': [kd * f], 'duration': [n * kd * f], 'time': [t0 + i * kd * f for i in range(n)]}[attr]
+    return sp, ('U' if attr == 'time' else 'T'), lab, attr != 'time', val
+
+
+SAME_HOWS = ['viewself', 'viewcast', 'copy', 'ccopy', 'dcopy', 'asany', 'nparr', 'astype']
+FLAT_HOWS = ['reshape', 'ravel', 'flatten']
+STRIP_HOWS = ['pickle', 'stripview']
+
+
+def do_step(o, st):
+    T = ts().TimeArray
+    k = st[0]
+    if k == 'wrap':
+        kw = {}
+        if st[1] != 'absent':
+            kw['time_unit'] = None if st[1] == 'none' else st[1]
+        if st[2] != 'absent':
+            kw['copy'] = bool(st[2])
+        return T(o, **kw)
+    if k == 'conv':
+        o.convert_unit(st[1])
+        return o
+    if k == 'same':
+        return {'viewself': lambda: o.view(type(o)), 'viewcast': lambda: o.view(T), 'copy': lambda: o.copy(),
+                'ccopy': lambda: _copy.copy(o), 'dcopy': lambda: _copy.deepcopy(o), 'asany': lambda: np.asanyarray(o),
+                'nparr': lambda: np.array(o, copy=False, subok=True), 'astype': lambda: o.astype(np.int64)}[st[1]]()
+    if k == 'flat':
+        return {'reshape': lambda: o.reshape(-1), 'ravel': lambda: o.ravel(), 'flatten': lambda: o.flatten()}[st[1]]()
+    if k == 'strip':
+        return pickle.loads(pickle.dumps(o)) if st[1] == 'pickle' else o.view(np.ndarray).view(type(o))
+    if k == 'neg':
+        return -o
+    if k == 'item':
+        return o[{'int': int, 'npint64': np.int64, 'npint32': np.int32}[st[2]](st[1])]
+    if k == 'slice':
+        return o[st[1]:st[2]:st[3]]
+    if k == 'fancy':
+        return o[list(st[1])] if st[2] == 'list' else o[np.array(st[1], dtype=np.int64)]
+    if k == 'red':
+        if len(st) > 2 and st[2] == 'axis0':     # the optional arguments of the reductions (never varied before session 3)
+            return getattr(o, st[1])(axis=0) if st[1] != 'sum' else o.sum(0)
+        return getattr(o, st[1])()
+    if k == 'ar':
+        other = st[2] if st[3] == 'int' else mk_T(st[4], True, [st[2]])
+        return OPS_AR[st[1]](o, other)
+    raise ValueError(k)
+
+
+def step_tok(st):
+    k = st[0]
+    if k == 'wrap':
+        return 'wrap=%s=%d' % ('none' if st[1] in ('none', 'absent') else st[1], 0 if st[2] == 0 else 1)
+    if k == 'conv':
+        return 'conv=' + st[1]
+    if k in ('same', 'flat', 'strip', 'neg'):
+        return k
+    if k == 'item':
+        return 'item=%d' % st[1]
+    if k == 'slice':
+        return 'slice=%d=%d=%d' % (st[1], st[2], st[3])
+    if k == 'fancy':
+        return 'fancy=' + ','.join(str(i) for i in st[1])
+    if k == 'red':
+        return 'red=' + st[1]
+    if k == 'ar':
+        return 'ar=%s=%s' % (st[1], ('N:1:i%d' % st[2]) if st[3] == 'int' else tok_T(st[4], True, [st[2]]))
+    raise ValueError(k)
+
+
+def shadow_step(state, st):
+    """the property's own account of a step on (cls, label, scalar, ps) — plain integers, no model"""
+    cls, lab, sc, ps = state
+    k = st[0]
+    if k == 'wrap':
+        return ('T', lab if st[1] in ('none', 'absent') else st[1], sc, ps)
+    if k == 'conv':
+        return (cls, st[1], sc, ps)
+    if k == 'same':
+        return ('T' if st[1] == 'viewcast' else cls, lab, sc, ps)
+    if k == 'flat':
+        return (cls, lab, False, ps)
+    if k == 'strip':
+        return (cls, None, sc, ps)        # the label after unpickling / re-viewing a stripped array is not the property's business
+    if k == 'neg':
+        return (cls, lab, sc, [-p for p in ps])
+    if k == 'item':
+        return ('T', lab, True, [ps[st[1]]])
+    if k == 'slice':
+        return (cls, lab, False, ps[st[1]:st[2]:st[3]])
+    if k == 'fancy':
+        return (cls, lab, False, [ps[i] for i in st[1]])
+    if k == 'red':
+        v = {'min': min(ps), 'max': max(ps), 'sum': sum(ps), 'ptp': max(ps) - min(ps)}[st[1]]
+        return ('T' if (cls == 'T' or st[1] in ('min', 'max')) else 'U', lab, True, [v])
+    if k == 'ar':
+        b = st[2] * FACTOR[lab] if st[3] == 'int' else st[2]
+        fn = {'add': lambda a: a + b, 'sub': lambda a: a - b, 'radd': lambda a: b + a, 'rsub': lambda a: b - a}[st[1]]
+        return (cls, lab, sc, [fn(a) for a in ps])
+    raise ValueError(k)
+
+
+def gen_steps(rng, cls0, lab, sc, ps, nsteps):
+    """steps valid for the running shape/class; every history contains at least one re-wrapping or view"""
+    steps, state = [], (cls0, lab, sc, list(ps))
+    for i in range(nsteps):
+        cls, lab, sc, ps = state
+        n = len(ps)
+        opts = ['wrap', 'wrap', 'wrap', 'same', 'same']
+        if cls == 'T':      # (UniformTime has no convert_unit: the display unit of an axis is changed by re-wrapping)
+            opts += ['conv', 'flat', 'strip', 'neg']
+        if not sc:
+            opts += ['item', 'fancy', 'red', 'red']
+            if cls == 'T' or n >= 1:
+                opts.append('slice')
+            if not (cls == 'U' and n < 2):
+                opts.append('ar')
+        elif cls == 'T':
+            opts.append('ar')
+        k = rng.choice(opts)
+        if k == 'wrap':
+            st = ('wrap', rng.choice(UNITS + ['none', 'absent']), rng.choice([0, 0, 0, 1, 'absent']))
+        elif k == 'conv':
+            st = ('conv', rng.choice(UNITS))
+        elif k == 'same':
+            st = ('same', rng.choice(SAME_HOWS))
+        elif k == 'flat':
+            st = ('flat', rng.choice(FLAT_HOWS))
+        elif k == 'strip':
+            st = ('strip', rng.choice(STRIP_HOWS))
+        elif k == 'neg':
+            st = ('neg',)
+        elif k == 'item':
+            st = ('item', rng.randrange(n), rng.choice(['int', 'npint64', 'npint32']))
+        elif k == 'slice':
+            a = rng.randint(0, n - 1)
+            st = ('slice', a, rng.randint(a + 1, n), rng.choice([1, 1, 2]))
+        elif k == 'fancy':
+            st = ('fancy', [rng.randrange(n) for _ in range(rng.randint(1, 3))], rng.choice(['list', 'array']))
+        elif k == 'red':
+            # the line's discipline is the source class's: once the class has changed only `max` (an element view in both) is used
+            names = (['min', 'max', 'sum', 'ptp'] if cls0 == 'T' else ['min', 'max']) if cls == cls0 else ['max']
+            st = ('red', rng.choice(names))
+            if cls == 'T' and cls0 == 'T' and st[1] != 'max' and rng.random() < 0.4:
+                st = ('red', st[1], 'axis0')
+        else:
+            if rng.random() < 0.6 or cls == 'U':
+                kk = rng.randint(-3, 3)
+                if abs(kk * FACTOR[lab]) >= HIST_LIM:
+                    kk = 0
+                st = ('ar', rng.choice(['add', 'sub', 'radd', 'rsub'] if cls == 'T' else ['add', 'sub']), kk, 'int')
+            else:
+                st = ('ar', rng.choice(['add', 'sub']), rng.randint(-10**12, 10**12), 'time', rng.choice(UNITS))
+        new = shadow_step(state, st)
+        if k == 'strip':
+            new = (new[0], 's', new[2], new[3])    # generator's running label only (what today's code does); the oracle does not use it
+        if any(abs(p) >= 2**59 for p in new[3]) or not new[3]:
+            continue
+        steps.append(st)
+        state = new
+    return steps, state
+
+
+def probe(o):
+    """the factor bare numbers are read with, as the public behaviour shows it: (o + 1) - o"""
+    try:
+        return str(int(np.asarray(o + 1).reshape(-1)[0]) - int(np.asarray(o).reshape(-1)[0]))
+    except Exception as e:  # noqa
+        return 'err' + err_kind(e)
+
+
+def canon_O(o):
+    return canon_T(o) + '~' + probe(o)
+
+
+def run_hist(sp, steps, opn, build_operand):
+    """runs one history on real objects; returns (impl string, observations for the oracle)"""
+    obs = {'reprs': [], 'earlier_changed': None}
+    try:
+        o = build_source(sp)
+    except Exception as e:  # noqa
+        return 'err source ' + err_kind(e), obs
+    live, states = [[o, canon_O(o)]], [canon_O(o)]
+    for st in steps:
+        try:
+            o2 = do_step(o, st)
+        except Exception as e:  # noqa
+            states.append('err-step %s %s' % (step_tok(st), err_kind(e)))
+            return 'ok ' + '|'.join(states) + ' # not-run', obs
+        c = canon_O(o2)
+        states.append(c)
+        if o2 is o:
+            live[-1][1] = c
+        else:
+            live.append([o2, c])
+        o = o2
+    if np.asarray(o).ndim == 0:
+        obs['reprs'].append(repr(o))
+    other = build_operand()
+    fn = OPS_AR.get(opn) or OPS_CMP[opn]
+    fin = call(lambda: 'ok ' + ((canon_O if opn in OPS_AR else canon_B)(fn(o, other))))
+    if fin.startswith('err'):
+        fin = 'err ValueError'
+    for ob, c in live:   # every object handed out on the way still is what it was (L6)
+        now = canon_O(ob)
+        if now != c:
+            obs['earlier_changed'] = [c, now]
+            break
+    return 'ok ' + '|'.join(states) + ' # ' + fin, obs
+
+
+def hist_cases(rng, n):
+    out = []
+    for it in range(n):
+        sp, cls, u, sc, ps = gen_source(rng)
+        steps, (cls_e, lab_e, sc_e, ps_e) = gen_steps(rng, cls, u, sc, ps, rng.randint(1, 5))
+        if it % 3 == 0 and not any(st[0] == 'wrap' and st[2] == 0 for st in steps):
+            # the never-varied optional parameter: copy=False with an explicit other unit, then straight to the operator
+            steps.append(('wrap', rng.choice([x for x in UNITS if x != lab_e]), 0))
+            cls_e, lab_e = 'T', steps[-1][1]
+        opn = rng.choice(list(OPS_AR) + list(OPS_CMP))
+        kind = rng.choice(['pyint', 'pyint', 'pyfloat', 'list', 'int64', 'int16', 'time', 'arr0d', 'bigint', 'float64'])
+        tok, build, meta = gen_operand(rng, kind, lab_e, len(ps_e))
+        if kind == 'time' and opn in ('radd', 'rsub'):
+            opn = 'add'
+        meta.update(op='hist', fop=opn, source=sp, steps=[list(st) for st in steps], cls=cls, expect0=[cls, u, sc, ps])
+        impl, obs = run_hist(sp, steps, opn, build)
+        meta['obs'] = obs
+        line = 'C01 hist %s %s %s %s %s' % (cls, tok_T(u, sc, ps), ';'.join(step_tok(st) for st in steps) or '-', opn, tok)
+        out.append(Case(line, impl, 'hist/%s/%s' % (sp['k'], opn), meta=meta, nontrivial=any(ps)))
     return out
 
 
@@ -397,6 +982,70 @@ def broadcast(a, sa, b, sb):
     return None, None
 
 
+
+def parse_O(s):
+    """'T:unit:sc:ps~probe' -> (unit, scalar, [int], probe str) or None"""
+    if '~' not in s:
+        return None
+    t, pr = s.rsplit('~', 1)
+    r = parse_T('ok ' + t)
+    return None if r is None else (r[0], r[1], r[2], pr)
+
+
+def judge_hist(c, fail):
+    m = c.meta
+    if c.impl.startswith('err'):
+        return fail('source/raises', 'building the source object raised: ' + c.impl)
+    states_s, fin = c.impl[3:].split(' # ', 1)
+    steps = m['steps']
+    state = tuple(m['expect0'])
+    for i, st_s in enumerate(states_s.split('|')):
+        kind = 'source' if i == 0 else steps[i - 1][0]
+        if i > 0:
+            state = shadow_step(state, steps[i - 1])
+        if st_s.startswith('err-step'):
+            return fail(kind + '/raises', 'step %d of the history raised: %s' % (i, st_s))
+        r = parse_O(st_s)
+        if r is None:
+            return fail(kind + '/not-whole-ps', 'object %d of the history is not a whole-picosecond time object: %s' % (i, st_s))
+        cls, lab, sc, ps = state
+        if lab is None:     # after unpickling / re-viewing a bare array the reported label is taken as it is
+            if r[0] not in UNITS:
+                return fail(kind + '/unit', 'no valid unit label after step %d: %s' % (i, st_s))
+            lab = r[0]
+            state = (cls, lab, sc, ps)
+        if r[0] != lab:
+            return fail(kind + '/unit', 'object %d reports unit %s, expected %s' % (i, r[0], lab))
+        if r[1] != sc or r[2] != list(ps):
+            return fail(kind + '/instant-changed', 'object %d denotes %s (0-d %s), expected %s ps (0-d %s)' % (i, r[2], r[1], list(ps), sc))
+        if r[3] != str(FACTOR[lab]):
+            return fail(kind + '/bare-number-not-read-in-own-unit',
+                        'object %d says its unit is %s, but (o + 1) - o = %s ps (1 %s = %d ps)' % (i, lab, r[3], lab, FACTOR[lab]))
+    obs = m.get('obs') or {}
+    if obs.get('earlier_changed'):
+        return fail('earlier-object-changed', 'an object handed out earlier in the history changed: %s' % (obs['earlier_changed'],))
+    cls, lab, sc, ps = state
+    if fin == 'not-run':
+        return fail('not-run', 'history incomplete')
+    for rp in obs.get('reprs', []):
+        want = '%r %s' % (ps[0] / float(FACTOR[lab]), lab)
+        if rp != want:
+            return fail('repr', 'the object prints as %r, expected %r (%d ps in %s)' % (rp, want, ps[0], lab))
+    fop = m['fop']
+    if fop in OPS_AR and fin.startswith('ok T:'):
+        r = parse_O(fin[3:])
+        if r is not None:
+            if r[3] != str(FACTOR[lab]) and r[0] == lab:
+                return fail('result/bare-number-not-read-in-own-unit', 'the result says unit %s but reads bare numbers with %s ps' % (lab, r[3]))
+            fin = fin.rsplit('~', 1)[0]
+    m2 = dict(m, op=fop, self=(lab, sc, list(ps)))
+    m2.pop('operands_unchanged', None)
+    f = check_case(Case(c.line, fin, c.clause + '/final', meta=m2))
+    if f is not None:
+        return Failure(f.key, f.what, {'line': c.line, 'clause': c.clause, 'meta': m}, case=c)
+    return None
+
+
 def check_case(c):
     """property-level judgement of one implementation result; returns Failure or None"""
     m = c.meta
@@ -407,10 +1056,12 @@ def check_case(c):
     def fail(sym, what):
         return Failure('%s/%s' % (c.clause, sym), '%s: %s  [op: %s] impl=%s' % (c.clause, what, c.line[:200], c.impl[:200]),
                        {'line': c.line, 'clause': c.clause, 'meta': m}, case=c)
+    if op == 'hist':
+        return judge_hist(c, fail)
     if op == 'ctor':
         unit = 's' if m['unit'] == 'none' else m['unit']
         vals = m['vals']
-        if m['kind'] in ('mixedlist', 'float64') or any(isinstance(v, float) for v in vals):
+        if m['kind'] in FLOAT_KINDS or any(isinstance(v, float) for v in vals):
             vals = [float(v) for v in vals]
         r = parse_T(c.impl)
         if r is None:
@@ -456,7 +1107,7 @@ def check_case(c):
         sb = m['scalar']
     else:
         vals = m['vals']
-        if m['kind'] in ('mixedlist', 'float64', 'npfloat64'):
+        if m['kind'] in FLOAT_KINDS:
             vals = [float(v) for v in vals]
         bounds = [exp_ps_num(v, ua) for v in vals]
         b_lo, b_hi = [b[0] for b in bounds], [b[1] for b in bounds]
@@ -540,19 +1191,25 @@ def rebuild_case(line, clause, m):
     if 'items' in m:
         m['items'] = [tuple(i) for i in m['items']]
     op = m['op']
+    for u_, kd_, v_, opn_ in m.get('prelude') or []:   # the earlier calls of the same process history (value-keyed state)
+        val_ = NP_SCALAR[kd_](v_) if kd_ in NP_SCALAR else v_
+        if opn_ == 'ctor':
+            call(lambda: T(val_, time_unit=u_))
+        else:
+            call(lambda: (OPS_AR.get(opn_) or OPS_CMP[opn_])(mk_T(u_, False, [0, 1]), val_))
 
     def operand():
         k = m['kind']
         if k == 'time':
             return mk_T(m['unit'], m['scalar'], m['ps'])
         v = m['vals']
-        if k in ('pyint', 'pyfloat'):
+        if k in ('pyint', 'pyfloat', 'bigint'):
             return v[0]
         if k in NP_SCALAR:
             return NP_SCALAR[k](v[0])
         if k in ('list', 'mixedlist'):
             return list(v)
-        return np.array(v, dtype={'int32': np.int32, 'int64': np.int64, 'float64': np.float64}[k])
+        return build_arr(v, k)
     if op == 'ctor':
         impl = call(lambda: 'ok ' + canon_T(T(operand(), time_unit=None if m['unit'] == 'none' else m['unit'])))
     elif op == 'ctorfrom':
@@ -565,6 +1222,9 @@ def rebuild_case(line, clause, m):
             t.convert_unit(m['unit'])
             return 'ok ' + canon_T(t)
         impl = call(conv)
+    elif op == 'hist':
+        impl, obs = run_hist(m['source'], m['steps'], m['fop'], operand)
+        m['obs'] = obs
     elif op == 'reduce':
         impl = call(lambda: 'ok ' + canon_T(getattr(mk_T(*m['self']), m['red'])()))
     else:
